@@ -364,6 +364,13 @@ def weave(op_file, cfg):
     """op_file: template name without .rs (e.g. 'take', 'combine2').  Returns (path, meta)."""
     tpath = os.path.join(CONTRACTS, op_file + ".rs")
     text = load_template(tpath)
+    if re.search(r"^//@pure", text, re.M):
+        # lemmas only: nothing is extracted
+        out = os.path.join(BUILD, "woven", f"{op_file}_{cfg}.rs")
+        os.makedirs(os.path.dirname(out), exist_ok=True)
+        prelude = open(os.path.join(CONTRACTS, "prelude.rs")).read()
+        open(out, "w").write("#![allow(unused)]\nuse vstd::prelude::*;\nverus! {\n" + prelude + "\n" + text + "\n} // verus!\nfn main() {}\n")
+        return out, {"op": None, "arity": 0, "cfg": cfg, "handlers": {}, "sites": 0, "trace_events": 0, "woven": out, "extracted": {}}
     m = re.search(r"^//@op\s+(\w+)(?:\s+(\d+))?", text, re.M)
     if not m:
         raise WeaveError(f"{tpath}: no //@op directive")
